@@ -39,12 +39,12 @@ func main() {
 			"counts E durable I/O events (hook H1); for a sample (quick) or all (thorough) k in 1..E a child process runs the workload and is SIGKILLed at event k under the process-death or " +
 			"power-loss model; a fresh process reopens, checks tip-was-active / utxo = fold / acknowledged blocks known, replays the remainder and checks convergence; for some k the recovery " +
 			"itself is killed at one of its own I/O events first; distinct = (workload, config, k, model, second-level k)")
-		c.Family("crash", c.N(42, 1400), runCase)
-		c.Require("crash.points", 300)
-		c.Require("crash.recovered_ok", 300)
-		c.Require("crash.during_recovery", 10)
+		c.Family("crash", c.N(28, 1400), runCase)
+		c.Require("crash.points", 150)
+		c.Require("crash.recovered_ok", 150)
+		c.Require("crash.during_recovery", 5)
 		for _, kind := range []string{"blk-write", "blk-sync", "ldb-commit-pre", "ldb-commit-post"} {
-			c.Require("crash.at."+kind, 5)
+			c.Require("crash.at."+kind, 3)
 		}
 	})
 }
@@ -114,7 +114,10 @@ func buildWorkload(k *mon.Case, dir string) (*Workload, int, []string, bool) {
 		tip = g.Block(r, tip, chaingen.BlockOpts{NTx: -1, Easy: r.Bool()})
 		deliver(tip)
 	}
-	nops := 14 + r.Intn(30)
+	nops := 10 + r.Intn(18)
+	if k.C.Thorough() {
+		nops = 14 + r.Intn(30)
+	}
 	var invalidated *refchain.Block
 	usedInvalid := false
 	for i := 0; i < nops && !s.Failed; i++ {
@@ -192,7 +195,9 @@ func runCase(k *mon.Case) {
 		k.Failf("harness:tmp", "%v", err)
 		return
 	}
-	defer os.RemoveAll(caseDir)
+	if os.Getenv("VERIF_KEEP") == "" {
+		defer os.RemoveAll(caseDir)
+	}
 	w, E, kinds, ok := buildWorkload(k, caseDir)
 	if !ok || w == nil {
 		return
@@ -200,7 +205,7 @@ func runCase(k *mon.Case) {
 	k.Desc(map[string]any{"family": w.Family, "cfg": w.Cfg, "ops": len(w.Ops), "events": E})
 	k.Count("reference.events", int64(E))
 	// crash points: quick = a stratified sample; thorough = many more
-	npoints := 10
+	npoints := 8
 	if k.C.Thorough() {
 		npoints = 40
 	}
@@ -237,7 +242,9 @@ func runCase(k *mon.Case) {
 func runCrash(k *mon.Case, caseDir string, w0 *Workload, kpt int, mode string, second int, kinds []string) {
 	dir := filepath.Join(caseDir, fmt.Sprintf("k%d-%s", kpt, mode))
 	os.MkdirAll(dir, 0o755)
-	defer os.RemoveAll(dir)
+	if os.Getenv("VERIF_KEEP") == "" {
+		defer os.RemoveAll(dir)
+	}
 	w := *w0
 	if err := w.save(filepath.Join(dir, "workload.json")); err != nil {
 		k.Failf("harness:save", "%v", err)
@@ -279,7 +286,9 @@ func runCrash(k *mon.Case, caseDir string, w0 *Workload, kpt int, mode string, s
 		} else if strings.HasPrefix(raw, "A ") {
 			f := strings.Fields(raw)
 			i, _ := strconv.Atoi(f[1])
-			ackLine[i] = li
+			if len(f) > 2 && f[2] == "ok" {
+				ackLine[i] = li // only a delivery that returned without error acknowledges storage
+			}
 			acked = i + 1
 			inprog = -1
 		}
